@@ -306,6 +306,14 @@ LITERAL_CLASSES = [
     ("single-quoted string", "'auto'", "auto"),
     ("double-quoted string", '"auto_po2"', "auto_po2"),
     ("number list", "[1 2]", [1, 2]),
+    # the entries of a list are number tokens of every class above
+    ("number list with negative entries", "[-1 -2]", [-1, -2]),
+    ("float list", "[0.5 0.25]", [F(1, 2), F(1, 4)]),
+    ("float list with a negative entry", "[-0.5 0.25 1 2]",
+     [F(-1, 2), F(1, 4), 1, 2]),
+    ("list of scientific floats", "[1.e-05 2.e-05]",
+     [F(1, 100000), F(2, 100000)]),
+    ("list with signed exponents", "[1e+2 -5e-2]", [F(100), F(-1, 20)]),
 ]
 
 
